@@ -328,8 +328,10 @@ def check_c05(w):
                                                'complete_multipart_upload')]
         ok = nat_ok(t)
         done_stamp = t['outcome'][2]
-        if u['completes'] > 1:
-            w.violation('C05', 'completed-twice', '%s completed %d times' % (uid, u['completes']))
+        if u['completes'] > 1 or (len(comps) > 1 and u['completes'] >= 1):
+            w.violation('C05', 'completed-twice',
+                        '%s: %d CompleteMultipartUpload requests were issued, %d applied by the '
+                        'service' % (uid, len(comps), u['completes']))
         if ok:
             if u['state'] != 'completed' or u['completes'] != 1:
                 w.violation('C05', 'success-not-completed',
@@ -751,6 +753,8 @@ def check_c13_e2e(w):
     N = len(ev)
     if N > 400:
         return
+    conc = max(1, cfg.get('max_request_concurrency', 1))
+    biggest = max(maxread.values())
     for i in range(N):
         tot = 0
         act = set()
@@ -758,12 +762,24 @@ def check_c13_e2e(w):
             tot += ev[j][2]
             act.add(ev[j][3])
             T = ev[j][0] - ev[i][0]
-            burst = 3 * sum(thr + maxread[s] for s in act)
+            # "a few read-thresholds per ACTIVE stream".  Upload bodies are
+            # charged for their tail when they are closed, so only the bodies
+            # open at one time - at most max_request_concurrency, they are read
+            # by request threads - hold bytes the limiter has not been asked
+            # about, however many bodies come and go inside the window.  A
+            # download stream is never closed by the library: each one that is
+            # active in the window may keep a tail below the threshold
+            # uncharged for good.
+            ups = sum(1 for s in act if s[0] == 'up')
+            downs = [s for s in act if s[0] != 'up']
+            nact = min(ups, conc) + len(downs)
+            burst = 3 * (min(ups, conc) * (thr + biggest) +
+                         sum(thr + maxread[s] for s in downs))
             lim = 1.25 * R * T + burst
             if tot > lim * (1 + 1e-9):
                 exc = tot - lim
                 if worst is None or exc > worst[0]:
-                    worst = (exc, tot, T, burst, len(act))
+                    worst = (exc, tot, T, burst, nact)
     if worst is not None:
         exc, tot, T, burst, nact = worst
         w.violation('C13', 'rate-exceeded',
